@@ -5,6 +5,6 @@ func init() {
 		sessionCheckWith("C09", tier, "MC_Auth", "MC_Auth.cfg", "Dump_Auth.cfg", "Server half: TLS x AllowInsecureAuth x backend families. Client half: ClientAuth.tla enumerates every exchange of up to 3 challenges (initial response absent/empty/octets, challenge and response empty/octets, mechanism error at any step, final reply 235/535/454); the real Client.Auth is driven with a scripted mechanism against a scripted fake server (lines written, result, challenges shown, values received compared with the dumped expectation) and against the real server with a scripted sasl.Server (octets on both sides).", clientAuthFamily)
 	}
 	checks["C10"] = func(tier string) {
-		sessionCheck("C10", tier, "MC_Auth", "MC_Auth.cfg", "Dump_Auth.cfg", "Server half of C10: every pre-STARTTLS history class of the bounded model, with and without injected plaintext.")
+		sessionCheckWith("C10", tier, "MC_Auth", "MC_Auth.cfg", "Dump_Auth.cfg", "Server half: every pre-STARTTLS history class of the bounded model, with and without injected plaintext. Client half: ClientTLS.tla gives, per entry point (DialStartTLS, NewClientStartTLS, SendMail with and without credentials) and server behaviour (proper, STARTTLS not offered, refused with 454, 220 then garbage, 220 with injected plaintext replies in the same segment), the verbs allowed in plaintext, success, and whose capabilities the client ends up with; the real client is run against scripted TCP fake servers that record plaintext and in-TLS commands.", clientTLSFamily)
 	}
 }
